@@ -259,6 +259,9 @@ theorem shape_of_equals : ∀ (fuel : Nat) (ss : Schemas) (t : Ty) (a b : GoVal)
       cases x <;> cases y <;> simp [unionEq] at hxy
       simp [ShapeEq, canonNil, isEmpty, isNil]
     case alias t' => exact shape_of_equals fuel ss t' a b h
+    case collPtr t' =>
+      simp only [Bool.and_eq_true] at h
+      exact shape_of_equals fuel ss t' a b h.2
 
 /-! ### equal values have the same encoding up to nil/empty collections -/
 
@@ -426,6 +429,9 @@ theorem goEquals_enc : ∀ (fuel : Nat) (ss : Schemas) (t : Ty) (a b : GoVal),
       simp only [canonNil, goEncode]
       exact encUnion_canon ih sh fields _ _ wx.1 wy.1 nx h
     case alias t' => exact ih t' a b ha hb na hab
+    case collPtr t' =>
+      simp only [Bool.and_eq_true] at hab
+      exact ih t' a b ha hb na hab.2
 
 /-! ### values with the same encoding are equal -/
 
@@ -505,8 +511,8 @@ theorem mem_encFields {k : String} {j : Json} :
 theorem eqFields_of_enc {f al : Ty → GoVal → GoVal → Bool} {w : Ty → GoVal → Bool}
     (ih : ∀ t x y, w t x = true → w t y = true → timesShared x = true → al t x y = true →
       goEncode x = goEncode y → f t x y = true)
-    (emp : ∀ t x y, w t x = true → w t y = true → isEmpty x = true → isEmpty y = true →
-      f t x y = true) :
+    (emp : ∀ t x y, w t x = true → w t y = true → al t x y = true → isEmpty x = true →
+      isEmpty y = true → f t x y = true) :
     ∀ fields xs ys, (fields.map (·.name)).Nodup →
       wtFields w fields xs = true → wtFields w fields ys = true →
       timesSharedFields xs = true → alignedFields al fields xs ys = true →
@@ -529,7 +535,7 @@ theorem eqFields_of_enc {f al : Ty → GoVal → GoVal → Bool} {w : Ty → GoV
     by_cases c1 : (!fd.required && isEmpty x) = true <;> by_cases c2 : (!fd.required && isEmpty y) = true
     · simp only [c1, c2, if_true] at h
       simp only [Bool.and_eq_true] at c1 c2
-      exact ⟨emp _ x y wx1 wy1 c1.2 c2.2, rec_ h⟩
+      exact ⟨emp _ x y wx1 wy1 al'.1 c1.2 c2.2, rec_ h⟩
     · simp only [c1, c2, if_true] at h
       exfalso
       have : (fd.name, goEncode y) ∈ encFields xs := by rw [h]; simp
@@ -603,15 +609,17 @@ theorem alignedEntries_mem {f : GoVal → GoVal → Bool} {other : List (String 
     | inl e => cases e; rw [hl] at ha; exact ha.1
     | inr e => exact alignedEntries_mem ha.2 e hl
 
-/-- two empty (`omitempty`) values of the same type are equal -/
+/-- two empty (`omitempty`) values of the same type are equal (alignment: same nil-ness of
+    pointers to named collections, which the codec model also counts as empty) -/
 theorem goEquals_of_isEmpty : ∀ (fuel : Nat) (ss : Schemas) (t : Ty) (a b : GoVal),
-    wt fuel ss t a = true → wt fuel ss t b = true → isEmpty a = true → isEmpty b = true →
-    goEquals fuel ss t a b = true
-  | 0, _, _, _, _, h, _, _, _ => by simp [wt] at h
-  | fuel + 1, ss, t, a, b, ha, hb, ea, eb => by
+    wt fuel ss t a = true → wt fuel ss t b = true → unionsAligned fuel ss t a b = true →
+    isEmpty a = true → isEmpty b = true → goEquals fuel ss t a b = true
+  | 0, _, _, _, _, h, _, _, _, _ => by simp [wt] at h
+  | fuel + 1, ss, t, a, b, ha, hb, al, ea, eb => by
     unfold wt at ha hb
+    unfold unionsAligned at al
     unfold goEquals
-    cases hcl : classify ss t <;> simp only [hcl] at ha hb ⊢
+    cases hcl : classify ss t <;> simp only [hcl] at ha hb al ⊢
     case unsup => cases ha
     case any => cases a <;> simp_all [isEmpty] <;> cases b <;> simp_all [deepEqual]
     case leaf kind dt nullable =>
@@ -636,7 +644,10 @@ theorem goEquals_of_isEmpty : ∀ (fuel : Nat) (ss : Schemas) (t : Ty) (a b : Go
       · simp only [ptrOk, Bool.false_eq_true, if_false] at ha
         cases a <;> simp_all [isEmpty]
       · cases a <;> simp_all [isEmpty, ptrOk] <;> cases b <;> simp_all [ptrEq]
-    case alias t' => exact goEquals_of_isEmpty fuel ss t' a b ha hb ea eb
+    case alias t' => exact goEquals_of_isEmpty fuel ss t' a b ha hb al ea eb
+    case collPtr t' =>
+      simp only [Bool.and_eq_true] at al ⊢
+      exact ⟨al.1, goEquals_of_isEmpty fuel ss t' a b ha hb al.2 ea eb⟩
 
 theorem goEquals_of_enc : ∀ (fuel : Nat) (ss : Schemas) (t : Ty) (a b : GoVal),
     wt fuel ss t a = true → wt fuel ss t b = true → timesShared a = true →
@@ -747,5 +758,8 @@ theorem goEquals_of_enc : ∀ (fuel : Nat) (ss : Schemas) (t : Ty) (a b : GoVal)
           exact eqBranches_of_enc ih nilrefl fields _ _ ha.1 hb.1 ha.2 hb.2
             (by simpa [timesShared] using ta) al.2 he
     case alias t' => exact ih t' a b ha hb ta al he
+    case collPtr t' =>
+      simp only [Bool.and_eq_true] at al ⊢
+      exact ⟨al.1, ih t' a b ha hb ta al.2 he⟩
 
 end Cog.Sem.GoEq
